@@ -420,8 +420,20 @@ func checkC19(r *report.Report, tier string, seed int64) error {
 	bopt.Hooks = 0
 	bopt.MaxInterfaces = 1
 	bopt.CaseBias = true
-	if err := pipelineCheck(r, "C19", seed, tierN(tier, 64, 2000), bopt, nil,
-		func(cr *caseRun) bool { return cr.C.Features["explicit-target-case-variant"]+cr.C.Features["skip-case"] > 0 }, c19BuilderOracle); err != nil {
+	if err := pipelineCheck(r, "C19", seed, tierN(tier, 112, 2000), bopt, nil,
+		func(cr *caseRun) bool {
+			return cr.C.Features["explicit-target-case-variant"]+cr.C.Features["skip-case"]+cr.C.Features["skip-re"]+cr.C.Features["skip-before-case-off"] > 0
+		},
+		func(cr *caseRun) [][2]string {
+			vs := c19BuilderOracle(cr)
+			// :skip patterns at their call site: a path the pattern matches (Go's regexp / EqualFold as judge) is never written
+			for _, v := range c06Oracle(cr) {
+				if v[0] == "skipped-path-assigned" {
+					vs = append(vs, v)
+				}
+			}
+			return vs
+		}); err != nil {
 		return err
 	}
 	// replay files for violations: one text file per signature
